@@ -145,14 +145,22 @@ func findSmallRewrites(pkgs map[string]*packages.Package, fresh []freshFunc) []t
 							exprs = s.Rhs
 						}
 					}
-					var found *ast.CallExpr
+					var found ast.Expr
 					for _, e := range exprs {
 						if isSimpleOperand(info, e) {
 							continue
 						}
+						// an argument that is evaluated before the literal call and is not a plain operand (p.id()) goes
+						// into a temporary of its own first: the order of the two calls stays what it was
+						if pre := argumentBeforeIIFE(info, e); pre != nil {
+							found = pre
+							break
+						}
 						// a literal call that is the whole statement's only expression is the flattener's business; as one
 						// of several results or right-hand sides it is hoisted like a nested one
-						found = nestedIIFE(info, e, len(exprs) == 1)
+						if c := nestedIIFE(info, e, len(exprs) == 1); c != nil {
+							found = c
+						}
 						break
 					}
 					if found == nil {
@@ -516,4 +524,50 @@ func findSmallRewrites(pkgs map[string]*packages.Package, fresh []freshFunc) []t
 		}
 	}
 	return out
+}
+
+// argumentBeforeIIFE: e is a call f(a…) one of whose arguments is an immediately invoked literal, and an earlier
+// argument is the first thing of e that is not a plain operand: that earlier argument (a single-valued expression).
+func argumentBeforeIIFE(info *types.Info, e ast.Expr) ast.Expr {
+	ce, ok := ast.Unparen(e).(*ast.CallExpr)
+	if !ok || ce.Ellipsis.IsValid() || nakedIIFE(e) != nil {
+		return nil
+	}
+	switch f := ast.Unparen(ce.Fun).(type) {
+	case *ast.Ident:
+	case *ast.SelectorExpr:
+		if !isSimpleOperand(info, f.X) {
+			if _, isPkg := info.Uses[identOf(f.X)].(*types.PkgName); !isPkg {
+				return nil
+			}
+		}
+	default:
+		return nil
+	}
+	first := -1
+	for i, a := range ce.Args {
+		if isSimpleOperand(info, a) {
+			continue
+		}
+		first = i
+		break
+	}
+	if first < 0 || nakedIIFE(ce.Args[first]) != nil {
+		return nil
+	}
+	later := false
+	for _, a := range ce.Args[first+1:] {
+		if nakedIIFE(a) != nil {
+			later = true
+		}
+	}
+	if !later {
+		return nil
+	}
+	if tv, ok := info.Types[ce.Args[first]]; !ok || tv.Type == nil {
+		return nil
+	} else if _, isTuple := tv.Type.(*types.Tuple); isTuple {
+		return nil
+	}
+	return ce.Args[first]
 }
